@@ -73,7 +73,7 @@ CLAIMS = {
     "C15": mixed("PROVED for every grid size/sorted grid with the distribution abstracted by its interval moments (A-DIST): weighted trapezoidal weights are non-negative and equal "
                  "the per-interval moment formula; lemmas: uniform => trapezoidal/(b-a); E[cf+e]=cE[f]+e, Var[cf+e]=c^2 Var[f], constant model; variance never negative (1..3 outputs). "
                  "BOUNDED: real distributions (uniform/triangle/normal), weighted midpoint, sums to 1, the real UQ pipeline."),
-    "C16": mixed("PROVED for dim 1,2 with symbolic coordinates: calculate_R_value_analytically returns the L2 product of the two hat functions (Gram entry), 0 for non-adjacent; "
+    "C16": mixed("PROVED for every dimension with symbolic coordinates: calculate_R_value_analytically returns the product of the 1-D L2 products of the two hat functions (Gram entry), 0 for non-adjacent; "
                  "lemma: the closed forms are the integrals. BOUNDED: matrix assembly (uniform / dimension-wise), SPD, mass lumping, right-hand side on all three size paths, "
                  "scalar vs vectorised hats, normalisation."),
     "C17": bounded("Relational over configurations (reuse on/off, both sides of the 200-point threshold): no single-call contract expresses it; BOUNDED: both configurations run on the "
